@@ -355,6 +355,36 @@ func (c *FnCtx) execIf(st *State, x *ast.IfStmt) {
 	st.become(c.join(a, b))
 }
 
+// execIfLeaves executes an if / else-if chain without joining: it returns the live states at the
+// ends of its branches (used before a cut point, where each path proves the cut assertion on
+// its own instead of over a joined heap).
+func (c *FnCtx) execIfLeaves(st *State, x *ast.IfStmt) []*State {
+	if x.Init != nil {
+		c.exec(st, x.Init)
+	}
+	cond := c.eval(&Env{st: st}, x.Cond)
+	a, b := c.split(st, cond.T)
+	c.execBlock(a, x.Body.List)
+	var out []*State
+	if !a.dead() {
+		out = append(out, a)
+	}
+	switch e := x.Else.(type) {
+	case nil:
+		if !b.dead() {
+			out = append(out, b)
+		}
+	case *ast.IfStmt:
+		out = append(out, c.execIfLeaves(b, e)...)
+	default:
+		c.exec(b, e)
+		if !b.dead() {
+			out = append(out, b)
+		}
+	}
+	return out
+}
+
 func (c *FnCtx) execSwitch(st *State, x *ast.SwitchStmt) {
 	if x.Init != nil {
 		c.exec(st, x.Init)
@@ -568,7 +598,7 @@ func (c *FnCtx) execReturn(st *State, x *ast.ReturnStmt) {
 			st.vars[r] = vals[i]
 		}
 	}
-	fr.returns = append(fr.returns, &retRec{st: st.clone(), vals: vals})
+	fr.returns = append(fr.returns, &retRec{st: st.clone(), vals: vals, afterCut: c.cutDone})
 	st.pc = "false"
 }
 
